@@ -1,7 +1,7 @@
 (* C06 -- EXPRESS tools are memory-safe and terminate on any input: the part that is logic.
    Only statements closed by [exact]. *)
 From Coq Require Import List ZArith Bool.
-From SC Require Import gen.ExpBuffers ExpSafe ExpSafe_Proofs.
+From SC Require Import gen.ExpBuffers ExpSafe ExpSafe_Proofs gen.ExprBound ExprBuf ExprBuf_Proofs.
 Import ListNotations.
 Local Open Scope Z_scope.
 
@@ -23,4 +23,20 @@ Example c06_example :
   sreach 0 (repeat Push 25) = [0;1;2;3;4;5;6;7;8;9;10;11;12;13;14;15;16;17;18;19] /\
   snd (srun 0 (repeat Push 25)) = true /\ snd (srun 0 (repeat Push 19)) = false /\
   semicolon_extent 10000 = 256.
+Proof. vm_compute. repeat split. Qed.
+
+(* exppp's EXPRlength() prints an expression into a buffer of EXPRstring_bound( e ) + 1 bytes with
+   sprintf / strcpy / strcat.  Whatever the expression - any nesting of queries, function calls,
+   aggregate and ONEOF lists of any number of elements, operators, names of any length - every byte
+   EXPRstring() stores, the terminator included, lies inside that buffer.  The lengths of the
+   literal pieces and the terms of the bound are regenerated from pretty_expr.c (gen/ExprBound.v);
+   [wf] says that a numeric or logical literal is no longer than its format allows (NUM_MAX). *)
+Theorem c06_expression_text_fits_its_buffer : forall e, wf e = true -> (bytes_stored e <= buffer_size e)%nat.
+Proof. exact expression_fits_its_buffer. Qed.
+Print Assumptions c06_expression_text_fits_its_buffer.
+
+Example c06_expression_example :
+  let e := XFuncall 6%nat [XQuery 1%nat (XName 5%nat false) (XOp false (XOp true (XName 1%nat false) (Some (XName 1%nat false))) (Some (XNum 1%nat)));
+                           XAggregate [(false, XNum 11%nat); (true, XNegate (XNum 22%nat)); (false, XOneof [XName 300%nat true; XBinary 64%nat])]] in
+  wf e = true /\ (450 <=? written e)%nat = true /\ (bytes_stored e <=? buffer_size e)%nat = true.
 Proof. vm_compute. repeat split. Qed.
